@@ -160,18 +160,12 @@ func (s *session) call(c *callSpec) (res string) {
 	connNoBefore := s.conns - 1
 	var events []string
 	if c.kind == "D" {
-		err := func() (err error) {
-			defer func() {
-				if r := recover(); r != nil {
-					err = fmt.Errorf("PANIC")
-				}
-			}()
-			s.cl.Disconnect()
-			return nil
-		}()
-		if err != nil {
+		switch disconnectBounded(s.cl) {
+		case "panic":
 			res = "panic"
-		} else {
+		case "hang":
+			res = "hang"
+		default:
 			res = "ok [ ]"
 		}
 	} else {
@@ -254,11 +248,42 @@ func (s *session) call(c *callSpec) (res string) {
 }
 
 func (s *session) close() {
-	s.cl.Disconnect()
+	disconnectBounded(s.cl)
 	if s.server != nil {
 		s.server.Close()
 	}
-	s.p.wg.Wait()
+	waitBounded(&s.p.wg)
+}
+
+// disconnectBounded calls Disconnect and gives up after five seconds (a client that blocks on itself must not block
+// the harness): "ok", "panic" or "hang"
+func disconnectBounded(cl *rscp.Client) string {
+	done := make(chan string, 1)
+	go func() {
+		defer func() {
+			if r := recover(); r != nil {
+				done <- "panic"
+			}
+		}()
+		cl.Disconnect()
+		done <- "ok"
+	}()
+	select {
+	case r := <-done:
+		return r
+	case <-time.After(5 * time.Second):
+		return "hang"
+	}
+}
+
+// waitBounded waits for the peer's goroutines, but not for ever
+func waitBounded(wg *sync.WaitGroup) {
+	done := make(chan struct{})
+	go func() { wg.Wait(); close(done) }()
+	select {
+	case <-done:
+	case <-time.After(5 * time.Second):
+	}
 }
 
 // ---- generators of scripts ------------------------------------------------------------------
